@@ -27,18 +27,19 @@ BOX = {
     "VG": "sigma in [0.1,0.4], nu in [0.05,0.5], theta in [-0.3,0.1], T in [max(0.5, 1.5 nu), 3]",
     "CGMY": "y in [0.5,0.95] u {1}: c in [0.3,1.5], g in [3,30], m in [5,40]; y in [1.05,1.2]: c in [0.3,1], g in [6,30], m in [8,40]; T in [0.5,3]",
     "BS": "sigma in [0.05,0.6], T in [0.05,3]",
+    "short": "MERTON / HEM as above with intensity in [0.2,0.6], T in [0.02,0.1] (MERTON: mu_j in [0,0.1], sigma_j in [0.1,0.25]); COS = FFT to 1e-7 S there",
 }
 ASSUMPTIONS = ["documented parameter box (empirical, with a 10x margin on every tolerance): " + "; ".join(f"{k}: {v}" for k, v in BOX.items()),
                "spot in [5,500], r in [0,0.1], d in [0,0.06]; strikes inside the middle 40% of COS's own [a,b]"]
 REQUIRED_COUNTERS = ["parity_checks", "bound_checks", "convexity_checks", "digital_checks", "density_checks", "cos_vs_fft",
-                     "cos_vs_blackscholes", "vg_vs_cgmy", "scalar_vs_vector", "price_product_checks", "closed_form_without_volatility", "prices_after_representation_change"]
+                     "cos_vs_blackscholes", "vg_vs_cgmy", "scalar_vs_vector", "price_product_checks", "closed_form_without_volatility", "prices_after_representation_change", "cos_vs_merton_series", "prices_after_rates_assigned"]
 MIN_NONTRIVIAL = {"quick": 25, "thorough": 250}
 THOROUGH_ROUNDS = 3      # the thorough tier runs the generators this many times (different seeds)
 SHARD_TIMEOUT = {"quick": 900, "thorough": 7200}
 
 # tolerances, in units of the spot unless stated (10x the worst deviation observed on the unchanged tree)
 TOL = {"parity": 1e-10, "bounds": 2e-7, "mono": 2e-7, "convex": 2e-6, "digital": 1e-6, "dens_neg": 1e-5, "dens_int": 1e-5,
-       "cos_fft": 3e-6, "cos_bs": 3e-8, "vg_cgmy": 3e-7, "fft_bs": 3e-6}
+       "cos_fft": 3e-6, "cos_fft_short": 1e-7, "cos_merton": 3e-8, "cos_bs": 3e-8, "vg_cgmy": 3e-7, "fft_bs": 3e-6}
 
 
 def _u(rng, lo, hi):
@@ -88,7 +89,37 @@ def gen_cases(tier, seed):
         if i % 4 == 3:
             T = _u(rng, 2.0, 3.0)       # long maturities, every family
         cases.append({"spec": spec, "T": T, "seed": int(rng.integers(2**31))})
+    # rare jumps at maturities of a week to a month (intensity x T <= 0.06): the jump component is far in the tails of the diffusion
+    for i in range(6 if tier == "quick" else 60):
+        spec, _ = gen_spec(rng, ["MERTON", "HEM"][i % 2])
+        spec["params"]["intensity"] = _u(rng, 0.2, 0.6)
+        if spec["family"] == "MERTON":
+            spec["params"]["mu_j"], spec["params"]["sigma_j"] = _u(rng, 0.0, 0.1), _u(rng, 0.1, 0.25)
+        cases.append({"spec": spec, "T": _u(rng, 0.02, 0.1), "seed": int(rng.integers(2**31)), "short": True})
     return cases
+
+
+def _merton_series_call(spec, ks, T):
+    """Merton's series of Black-Scholes prices (written here, no library code): the jump count is Poisson, conditionally the log-price is normal"""
+    from scipy.stats import norm
+
+    p, S, r, d = spec["params"], spec["spot"], spec["r"], spec["d"]
+    lam, mu, sj, sig = p["intensity"], p["mu_j"], p["sigma_j"], p["sigma"]
+    kbar = math.exp(mu + 0.5 * sj * sj) - 1.0
+    out = np.zeros(len(ks))
+    w = math.exp(-lam * T)
+    for n in range(0, 80):
+        if n:
+            w *= lam * T / n
+        var = sig * sig * T + n * sj * sj
+        m = math.log(S) + (r - d - lam * kbar - 0.5 * sig * sig) * T + n * mu          # mean of log S_T given n jumps
+        sd = math.sqrt(var)
+        d1 = (m + var - np.log(ks)) / sd
+        d2 = d1 - sd
+        out += w * math.exp(-r * T) * (np.exp(m + 0.5 * var) * norm.cdf(d1) - ks * norm.cdf(d2))
+        if w < 1e-18 and n > lam * T:
+            break
+    return out
 
 
 def run_case(case, R):
@@ -159,6 +190,9 @@ def run_case(case, R):
         mid &= np.abs(np.log(ks / S)) <= 1.5
         if not mid.any():
             mid[ks.size // 2] = True
+        if case.get("short"):
+            # short maturities, rare jumps: both methods are accurate to 1e-8 S there (worst deviation observed 8.4e-9 S over 360 cases)
+            judge("cos-vs-fft-call-short-maturity", np.max(np.abs(fc - call)[mid]) / S, "cos_fft_short", "COS and FFT calls differ (short maturity, rare jumps)", "cos_vs_fft")
         judge("cos-vs-fft-call", np.max(np.abs(fc - call)[mid]) / S, "cos_fft", "COS and FFT calls differ", "cos_vs_fft")
         judge("cos-vs-fft-put", np.max(np.abs(fp - put)[mid]) / S, "cos_fft", "COS and FFT puts differ", "cos_vs_fft")
     except Exception as exc:  # noqa: BLE001
@@ -182,6 +216,24 @@ def run_case(case, R):
             want_p = df * np.maximum(np.array(kk) - F, 0.0)
             judge("bs-closed-form-without-volatility", max(np.max(np.abs(c0 - want_c)), np.max(np.abs(p0 - want_p))) / S, "parity",
                   f"closed form with sigma = {sig0} differs from the price of the deterministic stock df (F - K)^+", "closed_form_without_volatility")
+    # the interest and dividend rates assigned after construction (the models expose them as validated attributes): prices of a model
+    # constructed with the final values
+    try:
+        m4 = W.build_model(dict(spec, r=W.r6(rng.uniform(0.0, 0.1)), d=W.r6(rng.uniform(0.0, 0.06))))
+        m4.r, m4.d = spec["r"], spec["d"]
+        cos4 = COSPricer(m4)
+        judge("prices-after-rates-assigned", max(np.max(np.abs(cos4.call(ks, T) - call)), np.max(np.abs(cos4.put(ks, T) - put)), np.max(np.abs(cos4.digital(ks, T) - dig)) * S) / S,
+              "parity", "COS call / put / digital of a model whose r and d were assigned after construction differ from those of a model constructed with them",
+              "prices_after_rates_assigned")
+        if fam == "BS":
+            cf4 = m4.closed_form
+            judge("closed-form-after-rates-assigned", np.max(np.abs(np.array([cf4.call(k_, T) for k_ in ks]) - cos4.call(ks, T))) / S, "cos_bs",
+                  "after r and d were assigned the Black-Scholes closed form and COS disagree", "prices_after_rates_assigned")
+    except Exception as exc:  # noqa: BLE001
+        R.violation(f"{fam}-pricing-after-rates-assigned-raises", f"{label}: {type(exc).__name__}: {exc}", wit)
+    if fam == "MERTON":
+        ms = _merton_series_call(spec, ks, T)
+        judge("cos-vs-merton-series", np.max(np.abs(ms - call)) / S, "cos_merton", "COS call differs from Merton's series of Black-Scholes prices", "cos_vs_merton_series")
     if fam != "BS":
         # the same process with its triplet re-declared in another representation (what the Markov-chain processes do with their copy of
         # the model): the characteristic function, hence every price, is the one of the same process
